@@ -766,6 +766,25 @@ fn plans_for(mode: PlanMode, check: &str, prog: &Prog, kind: Kind, b: Budget, se
                             out.push(p3);
                         }
                     }
+                    // thread kinds: a HIGHER-numbered sibling of the panicking branch blocks for as long as the caller is inside
+                    // the macro (it is released once the caller is out). The handles are joined in branch order, so the panic
+                    // of the lower-numbered branch reaches the caller without waiting for the sibling; an expansion that first
+                    // joins every thread of the step leaves the caller blocked (exact deadlock detection: C18.hang).
+                    if kind.is_spawn() && !kind.is_async() && !e.tag.is_empty() && e.tag[0].branch != crate::core::CALLER {
+                        let sib: Vec<(u32, u32)> = r0
+                            .events
+                            .iter()
+                            .filter(|x| !x.tag.is_empty() && x.tag[0].inv == e.tag[0].inv && x.tag[0].inst == e.tag[0].inst && x.tag[0].step == e.tag[0].step
+                                && x.tag[0].branch != crate::core::CALLER && x.tag[0].branch > e.tag[0].branch)
+                            .map(|x| (x.ev, x.occ))
+                            .collect();
+                        if !sib.is_empty() {
+                            let mut p3 = base.clone();
+                            p3.panic = Some((e.ev, e.occ));
+                            p3.stuck.insert(*rng.pick(&sib));
+                            out.push(p3);
+                        }
+                    }
                     if kind.is_try() && !kind.is_async() {
                         let pos = plans::failable_positions(prog, &r0);
                         let cands: Vec<(u32, u32)> = pos.iter().copied().filter(|q| *q != (e.ev, e.occ)).collect();
